@@ -144,7 +144,7 @@ func (g *gen) varsBlock(outer []vinfo, order bool) (sx.Stmt, []vinfo) {
 	var outerOK []vinfo
 	for _, o := range outer {
 		head := strings.SplitN(o.path, ".", 2)[0]
-		if used[head] || (nested && head == "cfg") {
+		if used[head] || (nested && head == "cfg") || head == "srv" {
 			continue
 		}
 		outerOK = append(outerOK, o)
@@ -176,6 +176,48 @@ func (g *gen) varsBlock(outer []vinfo, order bool) (sx.Stmt, []vinfo) {
 		}
 		defs = append(defs, sx.F(sx.U("cfg"), sx.VM(inner)))
 		g.c.Count("def:nested-map")
+	}
+	if g.r.Intn(3) == 0 && !used["srv"] && len(defs) > 0 {
+		// a nested map of variables whose keys carry the names of the variables they refer to (depth 2 and 3):
+		//   srv: {x: ${x}; in: {y: "q ${y}"}}   — the references are to the top-level / outer variables
+		var refs []vinfo
+		for _, mv := range mine {
+			if mv.cat == "w" && !strings.Contains(mv.path, ".") && !order {
+				refs = append(refs, mv)
+			}
+		}
+		for _, o := range outerOK {
+			if o.cat == "w" && !strings.Contains(o.path, ".") {
+				refs = append(refs, o)
+			}
+		}
+		if len(refs) > 0 {
+			var inner, deep []sx.Stmt
+			seen := map[string]bool{}
+			for k := 0; k < 2; k++ {
+				t := refs[g.r.Intn(len(refs))]
+				if seen[t.path] {
+					continue
+				}
+				seen[t.path] = true
+				v := &sx.Scal{Q: g.r.Intn(2), Parts: []sx.Part{sub(t.path)}}
+				if v.Q == 1 {
+					v.Parts = append([]sx.Part{txt("n ")}, v.Parts...)
+				}
+				if k == 0 {
+					inner = append(inner, sx.F(sx.U(t.path), sx.VS(v)))
+					mine = append(mine, vinfo{"w", "srv." + t.path})
+				} else {
+					deep = append(deep, sx.F(sx.U(t.path), sx.VS(v)))
+					mine = append(mine, vinfo{"w", "srv.in." + t.path})
+				}
+			}
+			if len(deep) > 0 {
+				inner = append(inner, sx.F(sx.U("in"), sx.VM(deep)))
+			}
+			defs = append(defs, sx.F(sx.U("srv"), sx.VM(inner)))
+			g.c.Count("def:nested-map-shadowing-key")
+		}
 	}
 	return sx.F(sx.U("vars"), sx.VM(defs)), mine
 }
@@ -266,6 +308,24 @@ func (g *gen) useStmt(vis []vinfo, objs *[]string) []sx.Stmt {
 		body := []sx.Stmt{sx.F(sx.U("label"), sx.VS(&sx.Scal{Q: 1, Parts: []sx.Part{txt("e "), sub(pickW())}}))}
 		if p, ok := attr("col"); ok {
 			body = append(body, sx.F(sx.U("style", "stroke"), sx.VS(&sx.Scal{Q: 0, Parts: []sx.Part{p}})))
+		}
+		if g.r.Intn(2) == 0 {
+			// a connection that carries both a label and a map, substitutions in both
+			g.c.Count("use:edge-label+map")
+			mb := []sx.Stmt{sx.F(sx.U("target-arrowhead"), sx.VS(&sx.Scal{Q: 1, Parts: []sx.Part{txt("h "), sub(pickW())}}))}
+			if p, ok := attr("col"); ok {
+				mb = append(mb, sx.F(sx.U("style", "stroke"), sx.VS(&sx.Scal{Q: 0, Parts: []sx.Part{p}})))
+			}
+			if p, ok := attr("op"); ok {
+				mb = append(mb, sx.F(sx.U("style", "opacity"), sx.VS(&sx.Scal{Q: 0, Parts: []sx.Part{p}})))
+			}
+			var prim *sx.Scal
+			if g.r.Intn(3) == 0 {
+				prim = lit(0, "plain")
+			} else {
+				prim = &sx.Scal{Q: g.r.Intn(2), Parts: []sx.Part{sub(pickW())}}
+			}
+			return []sx.Stmt{{T: "e", Src: sx.U(name), Ar: g.pick([]string{"->", "<-", "--"}), Dst: sx.U(other), P: prim, V: sx.VM(mb)}}
 		}
 		return []sx.Stmt{sx.E(sx.U(name), "->", sx.U(other), sx.VM(body))}
 	case 10:
